@@ -632,3 +632,6 @@ COMPONENTS = {
     "stub": ["file system: SimFS behind builtins.open / os.path.exists", "environment actor"],
 }
 EXPECTED_PROBES = {}
+
+
+STATE_MEASURE = {'C02': "abstract state = (schedule index, order of the execute entries of that schedule); schedule key = (textual orders, client histories) of the model's schedules", 'C12': 'abstract state = (fault label, outcome); schedule key = (textual order, fault label)', 'C13': 'abstract state = (route, outcome class, exception type); schedule key = (textual order, fault sequence)'}
